@@ -16,7 +16,7 @@ RULE = ('stage sequences of 1-4 documents over priority / !del / !merge tags at 
         'tag, and the transformation touches a container at depth >=1; distinct = hash of the case')
 BUDGET = {'quick': (4, 350), 'thorough': (16, 6000)}
 SHRINK_CAP = {'quick': 300, 'thorough': 5000}
-ASSUMPTIONS = ['mapping-onto-list keys are non-negative (two spellings of one index would make key order significant)',
+ASSUMPTIONS = ['a mapping merged onto a list in which two keys spell the same element (1 and -2) writes that element twice: the key-permutation relation is skipped for such builds (detected by a probe on the list merge)',
                'soundness limits of DESIGN.md section 6']
 
 
@@ -57,7 +57,10 @@ def _case(draw):
     # explicit !merge below a list triggers the open finding 'list-prefilter-partial-survivor'; the main campaign excludes it by
     # construction, one case in eight keeps producing it
     mil = draw(st.integers(0, 7)) == 0
-    docs = draw(S.tagged_stages(min_stages=1, max_stages=4, keys=S.MERGE_KEYS_NONEG, neg=False, new=False, density=3, merge_in_list=mil))
+    # negative integer keys (list elements counted from the end) in half of the cases; where two keys of one mapping then spell the
+    # same element the key-permutation relation is skipped (see probes.py)
+    negk = draw(st.booleans())
+    docs = draw(S.tagged_stages(min_stages=1, max_stages=4, keys=S.MERGE_KEYS if negk else S.MERGE_KEYS_NONEG, neg=negk, new=False, density=3, merge_in_list=mil))
     perm = [draw(_perm(d)) for d in docs]
     # marker density: a marker on a root re-derives the inherited flags of the whole document
     marked = [draw(_mark(d, 0, draw(st.sampled_from([0, 3, 8])))) for d in docs]
@@ -127,9 +130,13 @@ def _run_case(case):
     # key permutation
     ptexts = [tdoc.render(d) for d in case['perm']]
     probes.counters['list_index_clipped'] = 0
+    probes.counters['colliding_index_keys'] = 0
     _build(texts)
     r = _build(ptexts)
-    if not same(base, r, ordered=False):
+    has_neg = any(isinstance(p[-1], int) and p[-1] < 0 for d in docs for p, _ in tdoc.walk(d) if p)
+    if has_neg and (probes.counters['colliding_index_keys'] or not probes.installed['collision']):
+        labels.add('permutation-skipped:two-keys-spell-one-list-element')
+    elif not same(base, r, ordered=False):
         # open finding: attributed only when, in one of the two builds, an element was written beyond the end of a list that the
         # merge had pruned before (its index is then clipped, so the outcome depends on the order in which the keys arrive)
         fid = 'mapping-onto-pruned-list' if probes.counters['list_index_clipped'] else None
